@@ -186,3 +186,14 @@ Definition run_store (args : list bytes) : bytes :=
              end
   | _ => ERR
   end.
+
+(* tm <matcher> <terms ';'-separated, '-' = the nil term>: one bit per term *)
+Definition run_tm (args : list bytes) : bytes :=
+  match args with
+  | [m; ts] =>
+      match parse_tm_all m, opt_map_all parse_gname (items 59 ts) with
+      | Some m', Some ts' => flat_map (fun t => bool_byte (tmatches m' t)) ts'
+      | _, _ => ERR
+      end
+  | _ => ERR
+  end.
